@@ -1,3 +1,83 @@
-(** placeholder *)
-From Xds Require Import Model.SysCheck.
-Theorem C19_placeholder : True. Proof. exact I. Qed.
+(** C19 — Idle resources are evicted and unsubscribed; used and reserved ones stay.
+    Statements only; proofs are [exact] of lemmas in Proofs/SweepProofs.v.
+    (The model's clock [s_now] is logical; that the implementation's sweeps happen every expiry period of real
+    time is observed by the check around real sweeps, not proved.) *)
+From Xds Require Import Model.Base Model.Fqdn Model.Proto Model.Decode Model.DecodeCheck Model.Pick Model.Route Model.Mw Model.Sys Model.SysCheck.
+From Xds Require Import Proofs.DecodeProofs Proofs.C01Proofs Proofs.SweepProofs.
+Open Scope string_scope.
+
+(** One sweep, for every type and name at once: exactly the idle names disappear from the cache, from the access
+    records and from the interest sets; nothing else changes. *)
+Theorem C19_sweep : forall s t k,
+  let s' := fst (sweep s) in
+  aget k (tget t (s_cache s')) = (if smem k (idle_names s t) then None else aget k (tget t (s_cache s))) /\
+  aget k (tget t (s_meta s')) = (if smem k (idle_names s t) then None else aget k (tget t (s_meta s))) /\
+  smem k (watched_names s' t) = (if smem k (idle_names s t) then false else smem k (watched_names s t)).
+Proof. exact sweep_spec. Qed.
+Print Assumptions C19_sweep.
+
+(** idle = has an access record, is not the reserved inbound listener, and was last looked up more than the expiry
+    period ago (in every reachable state there is one access record per name) *)
+Theorem C19_idle : forall s t k, meta_nd s ->
+  smem k (idle_names s t) =
+  match aget k (tget t (s_meta s)) with
+  | Some tm => negb (is_reserved t k) && N.ltb (tm + expire_ms) (s_now s)
+  | None => false
+  end.
+Proof. exact idle_spec. Qed.
+Print Assumptions C19_idle.
+
+Theorem C19_records_unique : forall c o h, meta_nd (final c o h).
+Proof. exact reachable_meta_nd. Qed.
+Print Assumptions C19_records_unique.
+
+Theorem C19_idle_is_evicted : forall s t k tm, meta_nd s ->
+  aget k (tget t (s_meta s)) = Some tm -> (tm + expire_ms < s_now s)%N -> is_reserved t k = false ->
+  aget k (tget t (s_cache (fst (sweep s)))) = None /\ smem k (watched_names (fst (sweep s)) t) = false.
+Proof. exact idle_is_evicted. Qed.
+Print Assumptions C19_idle_is_evicted.
+
+Theorem C19_recently_used_survives : forall s t k tm, meta_nd s ->
+  aget k (tget t (s_meta s)) = Some tm -> (s_now s <= tm + expire_ms)%N ->
+  aget k (tget t (s_cache (fst (sweep s)))) = aget k (tget t (s_cache s)) /\
+  smem k (watched_names (fst (sweep s)) t) = smem k (watched_names s t).
+Proof. exact recently_used_survives. Qed.
+Print Assumptions C19_recently_used_survives.
+
+(** a lookup that hits sets the access record to the current time *)
+Theorem C19_lookup_refreshes : forall s t n v,
+  aget n (tget t (s_cache s)) = Some v -> aget n (tget t (s_meta s)) <> None ->
+  aget n (tget t (s_meta (fst (fst (lookup s t n))))) = Some (s_now s).
+Proof. exact lookup_refreshes. Qed.
+Print Assumptions C19_lookup_refreshes.
+
+Theorem C19_reserved_survives : forall s,
+  aget reserved_lds (tget TLis (s_cache (fst (sweep s)))) = aget reserved_lds (tget TLis (s_cache s)) /\
+  smem reserved_lds (watched_names (fst (sweep s)) TLis) = smem reserved_lds (watched_names s TLis).
+Proof. exact reserved_survives. Qed.
+Print Assumptions C19_reserved_survives.
+
+(** every eviction sends a request of the type whose name list is the interest set without the evicted name *)
+Theorem C19_eviction_unsubscribes : forall s t n, s_closed s = false -> s_sender_ok s = true ->
+  snd (evict_one s t n) =
+  [(s_stream s, {| q_type := t; q_version := tget t (s_version s); q_nonce := tget t (s_nonce s);
+                   q_names := sdel n (watched_names s t); q_error := false |})].
+Proof. exact evict_request. Qed.
+Print Assumptions C19_eviction_unsubscribes.
+
+(** a later lookup of an evicted name misses, subscribes again and sends a request listing it; the value it then
+    obtains is the control plane's current one by C01 ([C01_fold_accepted]) *)
+Theorem C19_lookup_after_eviction : forall s t n, aget n (tget t (s_cache s)) = None ->
+  let '(s', rq, r) := lookup s t n in
+  r = LMiss /\ smem n (watched_names s' t) = true /\
+  (s_closed s = false -> s_sender_ok s = true -> exists q, rq = [(s_stream s, q)] /\ q_type q = t /\ smem n (q_names q) = true).
+Proof. exact lookup_after_eviction. Qed.
+Print Assumptions C19_lookup_after_eviction.
+
+Theorem C19_example :
+  let c := {| sc_nds_required := false; sc_f := {| f_ns := "default"; f_dom := "cluster.local" |} |} in
+  let o := mk_oracle [] [] [] in
+  let cl n := RGood {| cl_name := n; cl_type := Some 3; cl_lb := 0; cl_eds_service := None; cl_outlier := None; cl_load := None |} in
+  let h := [OSubscribe TCl "a"; OSubscribe TCl "b"; OResp "1" "n1" (PCds [cl "a"; cl "b"]); OTick 20000; OLookup TCl "b"; OTick 20000; OSweep] in
+  (map (fun n => is_some (aget n (tget TCl (s_cache (final c o h))))) ["a"; "b"], watched_names (final c o h) TCl) = ([false; true], ["b"]).
+Proof. exact C19_example_proof. Qed.
